@@ -66,7 +66,31 @@ def _nested_with(e):
     return r1 + "\n#####\n" + r2
 
 
+def mymax(x, axis=None):
+    return np.max(x, axis=axis)
+
+
+def myadd(a, b):
+    return a + b
+
+
+def fac_sig(shape, signature=None):
+    return np.full(shape, float(len(signature.exprs_in)))
+
+
+def _persistent(e, key, make):
+    """an adapter that lives as long as this einx instance (so that later history steps hit ITS compile cache)"""
+    store = e.__dict__.setdefault("_vf_store", {})
+    if key not in store:
+        store[key] = make()
+    return store[key]
+
+
 ALPHABET = {
+    "adaptA(sum)": lambda e: _persistent(e, "A", lambda: e.numpy.adapt_numpylike_reduce(mysum))("a [b]", _x()),
+    "adaptB(max)": lambda e: _persistent(e, "B", lambda: e.numpy.adapt_numpylike_reduce(mymax))("a [b]", _x()),
+    "adaptC(add)": lambda e: _persistent(e, "C", lambda: e.numpy.adapt_numpylike_elementwise(myadd))("a b, b", _x(), np.ones(3)),
+    "add fac_sig": lambda e: e.add("a b, b", _x(), fac_sig),
     "id c=2": lambda e: e.id("a b -> a b c", _x(), c=2),
     "id c=2.0": lambda e: e.id("a b -> a b c", _x(), c=2.0),
     "id c=1": lambda e: e.id("a b -> a b c", _x(), c=1),
@@ -138,6 +162,7 @@ ALPHABET = {
     "get_at scalar": lambda e: e.get_at("[a] b,  -> b", _x(), 1),
     "dot": lambda e: e.dot("a [b], [b] c -> a c", _x(), np.ones((3, 2))),
 }
+CONSTS = ["adaptA(sum)", "adaptB(max)", "adaptC(add)", "add fac_sig", "add fac_named", "graph", "sum kd=True"]       # calls whose generated code embeds constants
 SUB = ["id c=2", "id c=2.0", "id c=True", "id c=1", "roll 1", "roll 1.0", "sum kd=True", "sum kd=1", "add arr", "add fac", "add badfac", "add scalar", "add scalar f",
        "graph", "rankerr", "semerr", "with-einsum", "with-raise", "adapt scale=2", "adapt scale=2.0"]
 
@@ -293,7 +318,7 @@ def run(ctx):
     fresh = fresh_interpreter_outcomes(keys)
     total = trans = 0; states = set(); outs = collections.defaultdict(set)
     # (alphabet, depth, EINX_CACHE_SIZE, EINX_WARN_ON_RETRACE): the retrace-warning wrapper sits between the cache and the traced function
-    plans = [(keys, 2, None, None), (SUB, 2, None, "2")] if ctx.tier == "quick" else [(keys, 2, None, None), (SUB, 3, None, None), (keys, 2, "0", None), (keys, 2, "1", None), (SUB, 3, "1", None),
+    plans = [(keys, 2, None, None), (SUB, 2, None, "2"), (CONSTS, 3, None, None)] if ctx.tier == "quick" else [(CONSTS, 4, None, None), (CONSTS, 3, "1", None), (keys, 2, None, None), (SUB, 3, None, None), (keys, 2, "0", None), (keys, 2, "1", None), (SUB, 3, "1", None),
                                                                                       (SUB, 3, None, "2"), (SUB, 2, None, "1"), (SUB, 3, None, "3")]
     for alphabet, depth, cache_env, warn_env in plans:
         fr = fresh if cache_env is None else fresh_interpreter_outcomes(alphabet, cache_env)
